@@ -12,8 +12,9 @@ Open Scope N_scope.
 Scheme cstmt_m := Induction for cstmt Sort Prop
   with cblk_m := Induction for cblk Sort Prop
   with celse_m := Induction for celse Sort Prop
-  with ccases_m := Induction for ccases Sort Prop.
-Combined Scheme cstmt_mutind from cstmt_m, cblk_m, celse_m, ccases_m.
+  with ccases_m := Induction for ccases Sort Prop
+  with cparams_m := Induction for cparams Sort Prop.
+Combined Scheme cstmt_mutind from cstmt_m, cblk_m, celse_m, ccases_m, cparams_m.
 
 (* ---- unfolding equations of the mutual definitions (cbn does not refold them) ---- *)
 Section Eqs.
@@ -21,7 +22,10 @@ Variable ij : option value.
 Variable mode : N.
 Variable pt : N -> list pdir -> bstr -> bstr.
 Variable buf : bstr.
-Notation sout' := (sout ij mode pt). Notation bout' := (bout ij mode pt). Notation eout' := (eout ij mode pt). Notation kout' := (kout ij mode pt).
+Variable dv : bstr -> option value.
+Variable cl : bstr -> (bstr -> option value) -> option bstr.
+Notation sout' := (sout ij mode pt dv cl). Notation bout' := (bout ij mode pt dv cl). Notation eout' := (eout ij mode pt dv cl). Notation kout' := (kout ij mode pt dv cl).
+Notation pout' := (pout ij mode pt dv cl).
 Lemma sout_raw env t : sout' env (SRaw t) = Some (t, env). Proof. reflexivity. Qed.
 Lemma sout_print env e ds : sout' env (SPrint e ds)
   = match ceval ij env e with
@@ -100,6 +104,25 @@ Lemma sout_css env e sfx : sout' env (SCss e sfx)
                 end
     end.
 Proof. reflexivity. Qed.
+Lemma sout_call env name d ps : sout' env (SCall name d ps)
+  = match cdata_env ij dv env d with
+    | Some base => match pout' env ps base with
+                   | Some cenv => match cl name cenv with Some t => Some (t, env) | None => None end
+                   | None => None
+                   end
+    | None => None
+    end.
+Proof. reflexivity. Qed.
+Lemma sout_msg env body : sout' env (SMsg body)
+  = if msg_ok body then match bout' env body with Some t => Some (t, env) | None => None end else None.
+Proof. reflexivity. Qed.
+Lemma pout_nil env acc : pout' env PNil acc = Some acc. Proof. reflexivity. Qed.
+Lemma pout_val env k e r acc : pout' env (PVal k e r) acc
+  = if is_ident k then match ceval ij env e with Some v => pout' env r (env_set acc k v) | None => None end else None.
+Proof. reflexivity. Qed.
+Lemma pout_cont env k body r acc : pout' env (PCont k body r) acc
+  = if is_ident k then match bout' env body with Some t => pout' env r (env_set acc k (VStr t)) | None => None end else None.
+Proof. reflexivity. Qed.
 Lemma bout_nil env : bout' env BNil = Some []. Proof. reflexivity. Qed.
 Lemma bout_cons env s r : bout' env (BCons s r)
   = match sout' env s with
@@ -151,6 +174,16 @@ Lemma sgen_forrange sc n x a1 rest body hasie ie : sgen' sc n (SForRange x a1 re
 Proof. reflexivity. Qed.
 Lemma sgen_css sc n e sfx : sgen' sc n (SCss e sfx) = (JSCss buf (match e with Some x => Some (cgen sc x) | None => None end) sfx, (sc, n)).
 Proof. reflexivity. Qed.
+Lemma sgen_call sc n name d ps : sgen' sc n (SCall name d ps) = let '(jps, n1) := pgen mode sc n ps in (JSCall buf name (dgen sc d) jps, (sc, n1)).
+Proof. reflexivity. Qed.
+Lemma sgen_msg sc n body : sgen' sc n (SMsg body) = let '(jb, n1) := bgen' sc n body in (JSSeq jb, (sc, n1)).
+Proof. reflexivity. Qed.
+Lemma pgen_nil sc n : pgen mode sc n PNil = (JPNil, n). Proof. reflexivity. Qed.
+Lemma pgen_val sc n k e r : pgen mode sc n (PVal k e r) = let '(jr, n1) := pgen mode sc n r in (JPVal k (cgen sc e) jr, n1). Proof. reflexivity. Qed.
+Lemma pgen_cont sc n k body r : pgen mode sc n (PCont k body r)
+  = let '(jb, n1) := bgen mode (jsc_name t_param (n + 1)) ([] :: sc) (n + 1) body in
+    let '(jr, n2) := pgen mode sc n1 r in (JPCont k (jsc_name t_param (n + 1)) jb jr, n2).
+Proof. reflexivity. Qed.
 Lemma bgen_nil sc n : bgen' sc n BNil = (JBNil, n). Proof. reflexivity. Qed.
 Lemma bgen_cons sc n s r : bgen' sc n (BCons s r)
   = let '(j, (sc1, n1)) := sgen' sc n s in let '(jr, n2) := bgen' sc1 n1 r in (JBCons j jr, n2).
@@ -167,6 +200,9 @@ Lemma kgen_case sc n v vs b rest : kgen' sc n (KCase v vs b rest)
 Proof. reflexivity. Qed.
 End Eqs.
 
+Section ExecEqs.
+Variable jfn : bstr -> jval -> jval -> outcome bstr.
+Notation js_exec := (js_exec jfn). Notation jb_exec := (jb_exec jfn). Notation jl_exec := (jl_exec jfn). Notation jk_exec := (jk_exec jfn).
 Lemma js_exec_var env g e : js_exec env (JSVar g e) = (v <- js_eval env e ;; Ok {| je_vars := aset (je_vars env) g v; je_data := je_data env |}).
 Proof. reflexivity. Qed.
 Lemma js_exec_varblock env g body : js_exec env (JSVarBlock g body) = jb_exec {| je_vars := aset (je_vars env) g (JStr []); je_data := je_data env |} body.
@@ -218,6 +254,13 @@ Lemma jl_exec_elif env c th rest : jl_exec env (JLElif c th rest) = (v <- js_eva
 Proof. reflexivity. Qed.
 Lemma jk_exec_case env sv v vs b rest : jk_exec env sv (JKCase v vs b rest) = (h <- jk_hit env sv (v :: vs) ;; if h then jb_exec env b else jk_exec env sv rest).
 Proof. reflexivity. Qed.
+Lemma js_exec_call env buf name d ps : js_exec env (JSCall buf name d ps)
+  = (env1 <- jp_exec jfn env ps ;; dv <- js_call_data env1 d (jp_args ps) ;; r <- jfn name dv (js_ij_arg env1) ;; js_append_text env1 buf r).
+Proof. reflexivity. Qed.
+Lemma js_exec_seq env b : js_exec env (JSSeq b) = jb_exec env b. Proof. reflexivity. Qed.
+Lemma jp_exec_cont env k g body r : jp_exec jfn env (JPCont k g body r) = (env1 <- jb_exec (jvset env g (JStr [])) body ;; jp_exec jfn env1 r).
+Proof. reflexivity. Qed.
+End ExecEqs.
 
 (* ---- small facts ---- *)
 Lemma ceval_ext ij env1 env2 : (forall k, env1 k = env2 k) -> forall e, ceval ij env1 e = ceval ij env2 e.
@@ -444,7 +487,8 @@ Lemma sgen_mono_all mode :
   (forall s buf sc n j sc' n', sgen mode buf sc n s = (j, (sc', n')) -> n <= n')
   /\ (forall b buf sc n jb n', bgen mode buf sc n b = (jb, n') -> n <= n')
   /\ (forall e buf sc n jl n', egen mode buf sc n e = (jl, n') -> n <= n')
-  /\ (forall k buf sc n jk n', kgen mode buf sc n k = (jk, n') -> n <= n').
+  /\ (forall k buf sc n jk n', kgen mode buf sc n k = (jk, n') -> n <= n')
+  /\ (forall ps sc n jps n', pgen mode sc n ps = (jps, n') -> n <= n').
 Proof.
   apply cstmt_mutind.
   - intros t buf sc n j sc' n' H. inversion H. lia.
@@ -469,6 +513,8 @@ Proof.
     + destruct (bgen mode buf ([] :: sc) n1 ie) as [ji n2] eqn:E2. specialize (IHi _ _ _ _ _ E2). inversion H; subst. lia.
     + inversion H; subst. lia.
   - intros e sfx buf sc n j sc' n' H. inversion H. lia.
+  - intros name d ps IHp buf sc n j sc' n' H. rewrite sgen_call in H. destruct (pgen mode sc n ps) as [jps n1] eqn:E1. inversion H; subst. eapply IHp; eauto.
+  - intros body IHb buf sc n j sc' n' H. rewrite sgen_msg in H. destruct (bgen mode buf sc n body) as [jb n1] eqn:E1. inversion H; subst. eapply IHb; eauto.
   - intros buf sc n jb n' H. inversion H. lia.
   - intros s IHs r IHr buf sc n jb n' H. rewrite bgen_cons in H.
     destruct (sgen mode buf sc n s) as [j [sc1 n1]] eqn:E1. destruct (bgen mode buf sc1 n1 r) as [jr n2] eqn:E2. inversion H; subst.
@@ -483,6 +529,11 @@ Proof.
   - intros v vs b IHb rest IHr buf sc n jk n' H. rewrite kgen_case in H.
     destruct (bgen mode buf ([] :: sc) n b) as [jb n1] eqn:E1. destruct (kgen mode buf sc n1 rest) as [jr n2] eqn:E2. inversion H; subst.
     specialize (IHb _ _ _ _ _ E1). specialize (IHr _ _ _ _ _ E2). lia.
+  - intros sc n jps n' H. inversion H. lia.
+  - intros k e r IHr sc n jps n' H. rewrite pgen_val in H. destruct (pgen mode sc n r) as [jr n1] eqn:E1. inversion H; subst. eapply IHr; eauto.
+  - intros k body IHb r IHr sc n jps n' H. rewrite pgen_cont in H.
+    destruct (bgen mode (jsc_name t_param (n + 1)) ([] :: sc) (n + 1) body) as [jb n1] eqn:E1. destruct (pgen mode sc n1 r) as [jr n2] eqn:E2. inversion H; subst.
+    specialize (IHb _ _ _ _ _ E1). specialize (IHr _ _ _ _ E2). lia.
 Qed.
 
 (* the scope and the counter after a statement *)
@@ -503,6 +554,8 @@ Proof.
     destruct (match range_args (JENum 0) (JENum 1) (map (cgen sc) (a1 :: rest)) with Some t => t | None => (JENull, JENull, JENull) end) as [[ei el] es].
     destruct hasie; [destruct (bgen mode buf ([] :: sc) n1 ie) as [ji n2]|]; inversion H; auto.
   - inversion H; auto.
+  - rewrite sgen_call in H. destruct (pgen mode sc n ps) as [jps n1]. inversion H; auto.
+  - rewrite sgen_msg in H. destruct (bgen mode buf sc n body) as [jb n1]. inversion H; auto.
 Qed.
 
 (* the names a statement binds are identifiers *)
@@ -511,7 +564,7 @@ Definition binder_ok (s : cstmt) : Prop :=
 Lemma sgen_after_ident mode buf sc n s j sc' n' : binder_ok s -> sgen mode buf sc n s = (j, (sc', n')) ->
   sc' = sc \/ (exists name, is_ident name = true /\ sc' = jsc_bind_pure sc name (jsc_name name (n + 1)) /\ n + 1 <= n').
 Proof.
-  intros Hb H. destruct s as [t|e ds|nm e|nm body|c th rest|v cs|x e body hasie ie|x a1 rest body hasie ie|e sfx]; cbn [binder_ok] in Hb.
+  intros Hb H. destruct s as [t|e ds|nm e|nm body|c th rest|v cs|x e body hasie ie|x a1 rest body hasie ie|e sfx|cname cd cps|mbody]; cbn [binder_ok] in Hb.
   - inversion H; auto.
   - inversion H; auto.
   - inversion H; subst. right. exists nm. split; [exact Hb|]. split; [reflexivity|lia].
@@ -525,6 +578,8 @@ Proof.
     destruct (match range_args (JENum 0) (JENum 1) (map (cgen sc) (a1 :: rest)) with Some t => t | None => (JENull, JENull, JENull) end) as [[ei el] es].
     destruct hasie; [destruct (bgen mode buf ([] :: sc) n1 ie) as [ji n2]|]; inversion H; auto.
   - inversion H; auto.
+  - rewrite sgen_call in H. destruct (pgen mode sc n cps) as [jps n1]. inversion H; auto.
+  - rewrite sgen_msg in H. destruct (bgen mode buf sc n mbody) as [jb n1]. inversion H; auto.
 Qed.
 Lemma swf_binder lv s : swf lv s = true -> binder_ok s.
 Proof. destruct s; cbn [swf binder_ok]; auto; intro H; apply andb_prop in H; apply H. Qed.
@@ -541,9 +596,58 @@ Lemma strict_eq_prim sv cv : prim_value sv = true -> prim_value cv = true ->
   js_strict_eq (to_js sv) (to_js cv) = Some (equals sv cv).
 Proof. destruct sv, cv; try discriminate; intros _ _; reflexivity. Qed.
 
+(* the data of a template and the object the JavaScript function gets: reading a key gives the value *)
+Definition datarel (dv : bstr -> option value) (jd : jval) : Prop :=
+  (forall key, js_member jd key = Ok (to_js (match dv key with Some v => v | None => VUndef end)))
+  /\ (forall key v, dv key = Some v -> core_value v = true)
+  /\ (forall key, is_ident key = false -> dv key = None).
+
+Lemma assoc_s_map_js key (m : list (bstr * value)) :
+  assoc_s key (map (fun kv => (fst kv, to_js (snd kv))) m) = match assoc_s key m with Some v => Some (to_js v) | None => None end.
+Proof.
+  induction m as [|[k v] r IH]; [reflexivity|]. cbn [map fst snd]. unfold assoc_s; fold (@assoc_s jval); fold (@assoc_s value).
+  destruct (bstr_eqb key k); [reflexivity|exact IH].
+Qed.
+Lemma core_assoc key (m : list (bstr * value)) v : forallb (fun kv => core_value (snd kv)) m = true -> assoc_s key m = Some v -> core_value v = true.
+Proof.
+  induction m as [|[k x] r IH]; intros Hc H; [discriminate|]. cbn [forallb snd] in Hc. apply andb_prop in Hc. destruct Hc as [H1 H2].
+  unfold assoc_s in H; fold (@assoc_s value) in H. destruct (bstr_eqb key k); [inversion H; subst; exact H1|exact (IH H2 H)].
+Qed.
+Lemma datarel_empty : datarel (fun _ => None) (JObj []).
+Proof. split; [intro key; reflexivity|]. split; [intros key v H; discriminate|reflexivity]. Qed.
+Lemma ident_keys key (m : list (bstr * value)) : forallb (fun kv => is_ident (fst kv)) m = true -> is_ident key = false -> assoc_s key m = None.
+Proof.
+  induction m as [|[k x] r IH]; intros Hk Hn; [reflexivity|]. cbn [forallb fst] in Hk. apply andb_prop in Hk. destruct Hk as [H1 H2].
+  unfold assoc_s; fold (@assoc_s value). destruct (bstr_eqb key k) eqn:E; [|exact (IH H2 Hn)]. apply bstr_eqb_true in E. congruence.
+Qed.
+Lemma datarel_map lid m : core_value (VMap lid m) = true -> forallb (fun kv => is_ident (fst kv)) m = true ->
+  datarel (fun k => assoc_s k m) (to_js (VMap lid m)).
+Proof.
+  intros Hc Hk. cbn [core_value] in Hc. split; [|split].
+  - intro key. cbn [to_js js_member]. rewrite assoc_s_map_js. destruct (assoc_s key m); reflexivity.
+  - intros key v H. exact (core_assoc key m v Hc H).
+  - intros key Hn. exact (ident_keys key m Hk Hn).
+Qed.
+Lemma datarel_obj dv jd : datarel dv jd -> exists m, jd = JObj m.
+Proof. intros [H _]. specialize (H []). destruct jd; try discriminate. eauto. Qed.
+Lemma datarel_set dv m k v : datarel dv (JObj m) -> core_value v = true -> is_ident k = true ->
+  datarel (env_set dv k v) (JObj (aset m k (to_js v))).
+Proof.
+  intros (H1 & H2 & H3) Hv Hk. split; [|split].
+  - intro key. cbn [js_member]. unfold env_set. destruct (bstr_eqb key k) eqn:E.
+    + apply bstr_eqb_true in E. subst key. rewrite assoc_s_aset. reflexivity.
+    + rewrite assoc_s_aset_other by exact E. exact (H1 key).
+  - intros key x. unfold env_set. destruct (bstr_eqb key k); [intro E; inversion E; subst; exact Hv|apply H2].
+  - intros key Hn. unfold env_set. destruct (bstr_eqb key k) eqn:E; [apply bstr_eqb_true in E; congruence|apply H3; exact Hn].
+Qed.
+
 Section JsStmts.
 Variable ij : option value.
 Variable mode : N.
+Variable denv : bstr -> option value.
+Variable callee : bstr -> (bstr -> option value) -> option bstr.
+Variable jfn : bstr -> jval -> jval -> outcome bstr.
+Notation js_exec := (js_exec jfn). Notation jb_exec := (jb_exec jfn). Notation jl_exec := (jl_exec jfn). Notation jk_exec := (jk_exec jfn).
 
 Definition jinv (buf : bstr) (sc : list (list (bstr * bstr))) (env : bstr -> option value) (je : jenv) (old : bstr) : Prop :=
   env_rel sc ij env je /\ assoc_s buf (je_vars je) = Some (JStr old).
@@ -618,29 +722,38 @@ Proof.
 Qed.
 
 Definition JP_s (s : cstmt) : Prop := forall buf sc n env je old text env' j sc' n',
-  ginv sc n buf -> sout ij mode go_print_text env s = Some (text, env') -> jinv buf sc env je old ->
+  ginv sc n buf -> sout ij mode go_print_text denv callee env s = Some (text, env') -> jinv buf sc env je old -> datarel denv (je_data je) ->
   sgen mode buf sc n s = (j, (sc', n')) ->
   exists je', js_exec je j = Ok je' /\ jinv buf sc' env' je' (old ++ text) /\ frame buf n je je'.
 Definition JP_b (b : cblk) : Prop := forall buf sc n env je old text jb n',
-  ginv sc n buf -> bout ij mode go_print_text env b = Some text -> jinv buf sc env je old ->
+  ginv sc n buf -> bout ij mode go_print_text denv callee env b = Some text -> jinv buf sc env je old -> datarel denv (je_data je) ->
   bgen mode buf sc n b = (jb, n') ->
   exists je', jb_exec je jb = Ok je' /\ assoc_s buf (je_vars je') = Some (JStr (old ++ text)) /\ frame buf n je je'.
 Definition JP_e (e : celse) : Prop := forall buf sc n env je old text jl n',
-  ginv sc n buf -> eout ij mode go_print_text env e = Some text -> jinv buf sc env je old ->
+  ginv sc n buf -> eout ij mode go_print_text denv callee env e = Some text -> jinv buf sc env je old -> datarel denv (je_data je) ->
   egen mode buf sc n e = (jl, n') ->
   exists je', jl_exec je jl = Ok je' /\ assoc_s buf (je_vars je') = Some (JStr (old ++ text)) /\ frame buf n je je'.
 Definition JP_k (k : ccases) : Prop := forall buf sc n env je old text sv jk n',
-  ginv sc n buf -> prim_value sv = true -> kout ij mode go_print_text env sv k = Some text -> jinv buf sc env je old ->
+  ginv sc n buf -> prim_value sv = true -> kout ij mode go_print_text denv callee env sv k = Some text -> jinv buf sc env je old -> datarel denv (je_data je) ->
   kgen mode buf sc n k = (jk, n') ->
   exists je', jk_exec je (to_js sv) jk = Ok je' /\ assoc_s buf (je_vars je') = Some (JStr (old ++ text)) /\ frame buf n je je'.
+(* the parameters of a call: the content blocks run in order, each into a new variable param_<counter>; then the object
+   literal is evaluated -- value parameters by their expressions, content parameters by their variables -- and updates the
+   data object as the parameters update the callee's data *)
+Definition JP_p (ps : cparams) : Prop := forall buf sc n env je old base cenv m jps n',
+  ginv sc n buf -> pout ij mode go_print_text denv callee env ps base = Some cenv -> jinv buf sc env je old -> datarel denv (je_data je) ->
+  pgen mode sc n ps = (jps, n') -> datarel base (JObj m) ->
+  exists je' vs, jp_exec jfn je jps = Ok je' /\ frame buf n je je' /\ assoc_s buf (je_vars je') = Some (JStr old)
+    /\ js_eval_params je' (jp_args jps) = Ok vs
+    /\ datarel cenv (JObj (fold_left (fun acc kv => aset acc (fst kv) (snd kv)) vs m)).
 
 (* a block is translated and run under one more (empty) frame *)
 Lemma JP_block b : JP_b b -> forall buf sc n env je old text jb n',
-  ginv sc n buf -> bout ij mode go_print_text env b = Some text -> jinv buf sc env je old ->
+  ginv sc n buf -> bout ij mode go_print_text denv callee env b = Some text -> jinv buf sc env je old -> datarel denv (je_data je) ->
   bgen mode buf ([] :: sc) n b = (jb, n') ->
   exists je', jb_exec je jb = Ok je' /\ assoc_s buf (je_vars je') = Some (JStr (old ++ text)) /\ frame buf n je je'.
 Proof.
-  intros Hb buf sc n env je old text jb n' G E [ER Hbuf] Eg.
+  intros Hb buf sc n env je old text jb n' G E [ER Hbuf] DR Eg.
   apply (Hb buf ([] :: sc) n env je old text jb n'); auto. apply ginv_push; exact G. split; [apply env_rel_push; exact ER|exact Hbuf].
 Qed.
 
@@ -654,9 +767,9 @@ Lemma frame_comp buf n a c d : frame buf n a c -> frame buf n c d -> frame buf n
 Proof. apply frame_trans. lia. Qed.
 
 Lemma small_between i m : (0 <= i <= m)%Z -> small m = true -> small i = true.
-Proof. unfold small. intros H Hm. apply Z.leb_le in Hm. apply Z.leb_le. lia. Qed.
+Proof. clear denv callee jfn. unfold small. intros H Hm. apply Z.leb_le in Hm. apply Z.leb_le. lia. Qed.
 Lemma list_index_mid (pre : list value) v r : list_index (pre ++ v :: r) (Z.of_nat (length pre)) = v.
-Proof.
+Proof. clear denv callee jfn.
   unfold list_index. rewrite app_length. cbn [length].
   replace (Z.of_nat (length pre) <? 0)%Z with false by (symmetry; apply Z.ltb_ge; lia).
   replace (Z.of_nat (length pre + S (length r)) <=? Z.of_nat (length pre))%Z with false by (symmetry; apply Z.leb_gt; lia).
@@ -668,9 +781,9 @@ Qed.
 Fixpoint lin_list (k : nat) (a st : Z) : list value :=
   match k with O => [] | S k' => VInt a :: lin_list k' (a + st)%Z st end.
 Lemma lin_list_length k a st : length (lin_list k a st) = k.
-Proof. revert a. induction k as [|k IH]; intro a; cbn [lin_list length]; [reflexivity|]. rewrite IH. reflexivity. Qed.
+Proof. clear denv callee jfn. revert a. induction k as [|k IH]; intro a; cbn [lin_list length]; [reflexivity|]. rewrite IH. reflexivity. Qed.
 Lemma lin_list_mid st : forall pre k a v r, lin_list k a st = pre ++ v :: r -> v = VInt (a + Z.of_nat (length pre) * st).
-Proof.
+Proof. clear denv callee jfn.
   induction pre as [|p pre IH]; intros k a v r H; destruct k as [|k]; cbn [lin_list app] in H; try discriminate.
   - inversion H; subst. cbn [length Z.of_nat]. f_equal. lia.
   - inversion H as [[Hp Hr]]. rewrite (IH k (a + st)%Z v r Hr). cbn [length]. f_equal. lia.
@@ -678,19 +791,19 @@ Qed.
 (* the number of elements of range(a, l, st) *)
 Definition range_cnt (a l st : Z) : Z := Z.max 0 ((l - a + st - 1) / st).
 Lemma range_cnt_step a l st : (0 < st)%Z -> (a < l)%Z -> range_cnt a l st = (range_cnt (a + st) l st + 1)%Z.
-Proof.
+Proof. clear denv callee jfn.
   intros Hs Hl. unfold range_cnt.
   replace (l - a + st - 1)%Z with ((l - (a + st) + st - 1) + 1 * st)%Z by lia. rewrite Z.div_add by lia.
   assert (0 <= (l - (a + st) + st - 1) / st)%Z by (apply Z.div_pos; lia). lia.
 Qed.
 Lemma range_cnt_zero a l st : (0 < st)%Z -> (l <= a)%Z -> range_cnt a l st = 0%Z.
-Proof.
+Proof. clear denv callee jfn.
   intros Hs Hl. unfold range_cnt. assert ((l - a + st - 1) / st <= 0)%Z; [|lia].
   apply Z.lt_succ_r. apply Z.div_lt_upper_bound; lia.
 Qed.
 Lemma range_items_spec st l : (0 < st)%Z -> forall f a, (range_cnt a l st <= Z.of_nat f)%Z ->
   range_items f a l st = lin_list (Z.to_nat (range_cnt a l st)) a st.
-Proof.
+Proof. clear denv callee jfn.
   intro Hs. induction f as [|f IH]; intros a Hf; cbn [range_items].
   - replace (Z.to_nat (range_cnt a l st)) with 0%nat by (unfold range_cnt in *; lia). reflexivity.
   - destruct (Z.ltb_spec a l) as [Hl|Hl].
@@ -701,7 +814,7 @@ Proof.
 Qed.
 (* Math.ceil(d / st) on integers *)
 Lemma ceil_div d st : (0 < st)%Z -> (- ((- d) / st) = (d + st - 1) / st)%Z.
-Proof.
+Proof. clear denv callee jfn.
   intro Hs. pose proof (Z.div_mod d st ltac:(lia)) as Hd. pose proof (Z.mod_pos_bound d st Hs) as Hm.
   set (q := (d / st)%Z) in *. set (m := (d mod st)%Z) in *.
   destruct (Z.eq_dec m 0) as [Hz|Hz].
@@ -712,7 +825,7 @@ Proof.
 Qed.
 Lemma range_cnt_bound a l st : (0 < st)%Z -> (0 <= range_cnt a l st)%Z /\ ((range_cnt a l st - 1) * st <= Z.max 0 (l - a - 1))%Z
   /\ (range_cnt a l st <= Z.max 0 (l - a))%Z.
-Proof.
+Proof. clear denv callee jfn.
   intro Hs. unfold range_cnt. split; [lia|].
   destruct (Z.ltb_spec a l) as [Hl|Hl].
   - assert (H0 : (0 <= (l - a + st - 1) / st)%Z) by (apply Z.div_pos; lia).
@@ -731,7 +844,7 @@ Definition loop_env (env envk : bstr -> option value) (x : bstr) (last : Z) : Pr
 
 Lemma loop_env_round env envk x last v i : is_ident x = true -> loop_env env envk x last ->
   loop_env env (env_set (env_set envk x v) (x ++ jk_index) (VInt i)) x last.
-Proof.
+Proof. clear denv callee jfn.
   intros Hx [L A]. split.
   - unfold env_set. rewrite (bstr_eqb_sym (x ++ c_lastindex) (x ++ jk_index)), index_neq_lastindex.
     rewrite (bstr_eqb_sym (x ++ c_lastindex) x), (ident_neq_lastindex x x Hx). exact L.
@@ -796,14 +909,14 @@ Definition item_ok (n : N) (x : bstr) (l : list value) (item : jenv -> Z -> outc
 
 (* the rounds of the generated for loop, from round |pre| on *)
 Lemma js_rounds body (HB : JP_b body) buf sc n x env je last l jb n2 :
-  is_ident x = true -> ginv sc n buf -> env_rel sc ij env je ->
+  is_ident x = true -> ginv sc n buf -> env_rel sc ij env je -> datarel denv (je_data je) ->
   bgen mode buf ([] :: loop_frame x (n + 1) :: sc) (n + 1) body = (jb, n2) ->
   small (last + 1) = true -> (0 <= last)%Z -> Z.of_nat (length l) = (last + 1)%Z ->
   forallb core_value l = true ->
   forall (item : jenv -> Z -> outcome jval) (stable : jenv -> Prop), item_ok n x l item stable ->
   forall items pre envk jek old text, l = pre ++ items ->
     loop_env env envk x last ->
-    for_out (fun en => bout ij mode go_print_text en body) x envk (Z.of_nat (length pre)) items = Some text ->
+    for_out (fun en => bout ij mode go_print_text denv callee en body) x envk (Z.of_nat (length pre)) items = Some text ->
     frame buf n je jek -> jvget jek buf = Some (JStr old) ->
     stable jek ->
     jvget jek (jsc_name (x ++ t_limit) (n + 1)) = Some (JNum (last + 1)) ->
@@ -812,7 +925,7 @@ Lemma js_rounds body (HB : JP_b body) buf sc n x env je last l jb n2 :
                        (jsc_name (x ++ t_limit) (n + 1)) (jsc_name (x ++ t_index) (n + 1)) (length items) jek = Ok je'
       /\ jvget je' buf = Some (JStr (old ++ text)) /\ frame buf n je je'.
 Proof.
-  intros Hx G ER Eg Hsl1 Hl0 Hlen Hcore item stable HIK.
+  intros Hx G ER DR Eg Hsl1 Hl0 Hlen Hcore item stable HIK.
   destruct (loop_names_distinct x (n + 1)) as (D1 & D2 & D3 & D4 & D5 & D6). cbn zeta in *.
   set (vd := jsc_name x (n + 1)) in *. set (vlist := jsc_name (x ++ t_list) (n + 1)) in *.
   set (vlen := jsc_name (x ++ t_limit) (n + 1)) in *. set (vidx := jsc_name (x ++ t_index) (n + 1)) in *.
@@ -827,8 +940,8 @@ Proof.
     exists jek. rewrite app_nil_r. auto.
   - cbn [for_out] in Ef. set (i := Z.of_nat (length pre)) in *.
     set (env1 := env_set (env_set envk x v) (x ++ jk_index) (VInt i)) in *.
-    destruct (bout ij mode go_print_text env1 body) as [t|] eqn:Et; [|discriminate].
-    destruct (for_out (fun en => bout ij mode go_print_text en body) x env1 (i + 1)%Z r) as [t'|] eqn:Er; [|discriminate].
+    destruct (bout ij mode go_print_text denv callee env1 body) as [t|] eqn:Et; [|discriminate].
+    destruct (for_out (fun en => bout ij mode go_print_text denv callee en body) x env1 (i + 1)%Z r) as [t'|] eqn:Er; [|discriminate].
     inversion Ef; subst text. clear Ef.
     assert (Hlenl : length l = (length pre + S (length r))%nat) by (rewrite Hl, app_length; reflexivity).
     assert (Hi : (0 <= i <= last)%Z) by (subst i; alia).
@@ -852,7 +965,8 @@ Proof.
       - unfold jvget, je1. cbn [jvset je_vars]. rewrite assoc_s_aset_other by (rewrite bstr_eqb_sym; exact D2). exact Jn. }
     assert (Hb1 : assoc_s buf (je_vars je1) = Some (JStr old)).
     { unfold je1. cbn [jvset je_vars]. rewrite assoc_s_aset_other by apply Bf. exact Hb. }
-    destruct (JP_block body HB buf (loop_frame x (n + 1) :: sc) (n + 1) env1 je1 old t jb n2 G1 Et (conj ER1 Hb1) Eg)
+    assert (DR1 : datarel denv (je_data je1)) by (rewrite (proj1 F1); exact DR).
+    destruct (JP_block body HB buf (loop_frame x (n + 1) :: sc) (n + 1) env1 je1 old t jb n2 G1 Et (conj ER1 Hb1) DR1 Eg)
       as (je2 & X & Hb2 & F2).
     rewrite X. cbn [bind].
     assert (Keep : forall y, bstr_eqb (jsc_name y (n + 1)) vd = false -> jvget je2 (jsc_name y (n + 1)) = jvget jek (jsc_name y (n + 1))).
@@ -909,14 +1023,19 @@ Proof.
 Qed.
 
 Lemma small_in a l v : small a = true -> small l = true -> (a <= v <= l \/ l <= v <= a)%Z -> small v = true.
-Proof. unfold small. intros Ha Hl H. apply Z.leb_le in Ha, Hl. apply Z.leb_le. lia. Qed.
+Proof. clear denv callee jfn. unfold small. intros Ha Hl H. apply Z.leb_le in Ha, Hl. apply Z.leb_le. lia. Qed.
 
-Theorem js_exec_all : (forall s, JP_s s) /\ (forall b, JP_b b) /\ (forall e, JP_e e) /\ (forall k, JP_k k).
+(* the JavaScript function of a template returns the text the template writes, for every data object that holds the
+   template's data and every opt_ijData that holds the injected data (if there is any) *)
+Hypothesis Hjcall : forall name cenv text jd ijv, callee name cenv = Some text -> datarel cenv jd ->
+  (forall v, ij = Some v -> ijv = to_js v) -> jfn name jd ijv = Ok text.
+
+Theorem js_exec_all : (forall s, JP_s s) /\ (forall b, JP_b b) /\ (forall e, JP_e e) /\ (forall k, JP_k k) /\ (forall ps, JP_p ps).
 Proof.
   apply cstmt_mutind.
-  - (* raw *) intros t buf sc n env je old text env' j sc' n' G E I Eg. rewrite sout_raw in E. rewrite sgen_raw in Eg. inversion E; subst. inversion Eg; subst.
+  - (* raw *) intros t buf sc n env je old text env' j sc' n' G E I DR Eg. rewrite sout_raw in E. rewrite sgen_raw in Eg. inversion E; subst. inversion Eg; subst.
     cbn [js_exec]. unfold js_append_text. rewrite (proj2 I). eexists. split; [reflexivity|]. split; [eapply jinv_append; eauto|apply append_frame].
-  - (* print *) intros e ds buf sc n env je old text env' j sc' n' G E I Eg. rewrite sout_print in E. rewrite sgen_print_eq in Eg. inversion Eg; subst. clear Eg.
+  - (* print *) intros e ds buf sc n env je old text env' j sc' n' G E I DR Eg. rewrite sout_print in E. rewrite sgen_print_eq in Eg. inversion Eg; subst. clear Eg.
     destruct (ceval ij env e) as [v|] eqn:Ev; [|discriminate]. destruct (scalar_string v) as [str|] eqn:Es; [|discriminate].
     destruct (cleanb str) eqn:Ec; [|discriminate]. inversion E; subst. clear E.
     destruct (scalar_string_ok v str Es) as (Hp & Hvs & Ht). destruct I as [ER Hb].
@@ -925,7 +1044,7 @@ Proof.
     rewrite (print_text_agree mode ds str (cleanb_ok _ Ec)) in Tj.
     cbn [js_exec]. unfold js_append. rewrite Ej. cbn [bind]. rewrite Tj, Hb. cbn [bind snd]. eexists. split; [reflexivity|].
     split; [eapply jinv_append; eauto; split; assumption|apply append_frame].
-  - (* let *) intros name e buf sc n env je old text env' j sc' n' G E I Eg. rewrite sout_let in E. rewrite sgen_let in Eg. inversion Eg; subst. clear Eg.
+  - (* let *) intros name e buf sc n env je old text env' j sc' n' G E I DR Eg. rewrite sout_let in E. rewrite sgen_let in Eg. inversion Eg; subst. clear Eg.
     destruct (bstr_eqb name n_ij) eqn:Hnij; [discriminate|]. destruct (is_ident name) eqn:Hid; [|discriminate].
     destruct (ceval ij env e) as [v|] eqn:Ev; [|discriminate]. inversion E; subst. clear E.
     destruct I as [ER Hb]. destruct (cgen_correct sc ij env je ER e v Ev) as [Hj Hcv].
@@ -936,9 +1055,9 @@ Proof.
     { split; [reflexivity|]. intros g0 H0 _. cbn [je_vars]. apply assoc_s_aset_other. apply bounded_fresh. exact H0. }
     split; [|exact Hfr]. split; [|cbn [je_vars]; rewrite assoc_s_aset_other by exact Hbg; exact Hb].
     apply (env_rel_bind buf sc n env je _ name v Hid G ER Hfr); [apply assoc_s_aset|exact Hcv].
-  - (* let, content form *) intros name body IHb buf sc n env je old text env' j sc' n' G E I Eg. rewrite sout_letc in E. rewrite sgen_letc in Eg.
+  - (* let, content form *) intros name body IHb buf sc n env je old text env' j sc' n' G E I DR Eg. rewrite sout_letc in E. rewrite sgen_letc in Eg.
     destruct (bstr_eqb name n_ij) eqn:Hnij; [discriminate|]. destruct (is_ident name) eqn:Hid; [|discriminate].
-    destruct (bout ij mode go_print_text env body) as [t|] eqn:Et; [|discriminate]. inversion E; subst. clear E.
+    destruct (bout ij mode go_print_text denv callee env body) as [t|] eqn:Et; [|discriminate]. inversion E; subst. clear E.
     set (g := jsc_name name (n + 1)) in *.
     destruct (bgen mode g ([] :: sc) (n + 1) body) as [jb n1] eqn:E1. inversion Eg; subst. clear Eg.
     destruct I as [ER Hb]. rewrite js_exec_varblock.
@@ -957,7 +1076,7 @@ Proof.
       - intro x. destruct (G5 x) as (A & B & _ & _). repeat split; try (eapply bounded_mono; [|eassumption]; lia); apply bounded_fresh; assumption. }
     assert (I0 : jinv g sc env je0 []).
     { split; [exact (env_rel_frame buf sc n env je je0 G ER F0)|]. exact (assoc_s_aset g (JStr []) (je_vars je)). }
-    destruct (JP_block body IHb g sc (n + 1) env je0 [] t jb n' G' Et I0 E1) as (je1 & X1 & Hg1 & [D1 F1]).
+    destruct (JP_block body IHb g sc (n + 1) env je0 [] t jb n' G' Et I0 DR E1) as (je1 & X1 & Hg1 & [D1 F1]).
     exists je1. split; [exact X1|]. rewrite app_nil_r. cbn [app] in Hg1.
     (* seen from outside: only variables with newer counters, and g, were touched *)
     assert (F : frame buf n je je1).
@@ -968,29 +1087,29 @@ Proof.
     split; [|exact F]. split.
     + apply (env_rel_bind buf sc n env je je1 name (VStr t) Hid G ER F); [exact Hg1|reflexivity].
     + rewrite F1; [|eapply bounded_mono; [|apply (gi_buf _ _ _ G)]; lia|exact Hbg]. cbn [je_vars je0]. rewrite assoc_s_aset_other by exact Hbg. exact Hb.
-  - (* if *) intros c th IHt rest IHr buf sc n env je old text env' j sc' n' G E I Eg. rewrite sout_if in E. rewrite sgen_if in Eg.
+  - (* if *) intros c th IHt rest IHr buf sc n env je old text env' j sc' n' G E I DR Eg. rewrite sout_if in E. rewrite sgen_if in Eg.
     destruct (bgen mode buf ([] :: sc) n th) as [jt n1] eqn:E1. destruct (egen mode buf sc n1 rest) as [jr n2] eqn:E2. inversion Eg; subst. clear Eg.
     destruct (ceval ij env c) as [v|] eqn:Ev; [|discriminate].
     pose proof I as [ER Hb]. destruct (cgen_correct sc' ij env je ER c v Ev) as [Hj Hcv].
     rewrite js_exec_if, Hj. cbn [bind]. rewrite truthy_js by exact Hcv.
     pose proof (proj1 (proj2 (sgen_mono_all mode)) _ _ _ _ _ _ E1) as Hn1.
     destruct (truthy v).
-    + destruct (bout ij mode go_print_text env th) as [t|] eqn:Et; [|discriminate]. inversion E; subst. clear E.
-      destruct (JP_block th IHt buf sc' n env' je old text jt n1 G Et I E1) as (je' & X & Hb' & F).
+    + destruct (bout ij mode go_print_text denv callee env th) as [t|] eqn:Et; [|discriminate]. inversion E; subst. clear E.
+      destruct (JP_block th IHt buf sc' n env' je old text jt n1 G Et I DR E1) as (je' & X & Hb' & F).
       exists je'. split; [exact X|]. split; [eapply jinv_frame; eauto|exact F].
-    + destruct (eout ij mode go_print_text env rest) as [t|] eqn:Et; [|discriminate]. inversion E; subst. clear E.
-      destruct (IHr buf sc' n1 env' je old text jr n' (ginv_mono _ _ _ _ Hn1 G) Et I E2) as (je' & X & Hb' & F).
+    + destruct (eout ij mode go_print_text denv callee env rest) as [t|] eqn:Et; [|discriminate]. inversion E; subst. clear E.
+      destruct (IHr buf sc' n1 env' je old text jr n' (ginv_mono _ _ _ _ Hn1 G) Et I DR E2) as (je' & X & Hb' & F).
       assert (F' : frame buf n je je') by (eapply frame_trans; [exact Hn1|apply frame_refl|exact F]).
       exists je'. split; [exact X|]. split; [eapply jinv_frame; eauto|exact F'].
-  - (* switch *) intros v cs IHk buf sc n env je old text env' j sc' n' G E I Eg. rewrite sout_switch in E. rewrite sgen_switch in Eg.
+  - (* switch *) intros v cs IHk buf sc n env je old text env' j sc' n' G E I DR Eg. rewrite sout_switch in E. rewrite sgen_switch in Eg.
     destruct (kgen mode buf sc n cs) as [jc n1] eqn:E1. inversion Eg; subst. clear Eg.
     destruct (ceval ij env v) as [sv|] eqn:Ev; [|discriminate]. destruct (prim_value sv) eqn:Hp; [|discriminate].
-    destruct (kout ij mode go_print_text env sv cs) as [t|] eqn:Et; [|discriminate]. inversion E; subst. clear E.
+    destruct (kout ij mode go_print_text denv callee env sv cs) as [t|] eqn:Et; [|discriminate]. inversion E; subst. clear E.
     pose proof I as [ER Hb]. destruct (cgen_correct sc' ij env' je ER v sv Ev) as [Hj Hcv].
     rewrite js_exec_switch, Hj. cbn [bind].
-    destruct (IHk buf sc' n env' je old text sv jc n' G Hp Et I E1) as (je' & X & Hb' & F).
+    destruct (IHk buf sc' n env' je old text sv jc n' G Hp Et I DR E1) as (je' & X & Hb' & F).
     exists je'. split; [exact X|]. split; [eapply jinv_frame; eauto|exact F].
-  - (* foreach *) intros x e body IHb hasie ie IHi buf sc n env je old text env' j sc' n' G E I Eg. rewrite sout_for in E. rewrite sgen_for in Eg.
+  - (* foreach *) intros x e body IHb hasie ie IHi buf sc n env je old text env' j sc' n' G E I DR Eg. rewrite sout_for in E. rewrite sgen_for in Eg.
     destruct (is_ident x) eqn:Hx; [|discriminate]. destruct (bstr_eqb x n_ij) eqn:Hxij; [discriminate|]. cbn [andb negb] in E.
     destruct (ceval ij env e) as [[| | | | | |lid l|]|] eqn:Ev; try discriminate.
     destruct (small (Z.of_nat (length l))) eqn:Hsm; [|discriminate].
@@ -1009,10 +1128,10 @@ Proof.
     + (* the empty list *)
       destruct hasie.
       * destruct (bgen mode buf ([] :: sc) n1 ie) as [ji n2] eqn:E2. inversion Eg; subst. clear Eg.
-        destruct (bout ij mode go_print_text env ie) as [t|] eqn:Et; [|discriminate]. inversion E; subst. clear E.
+        destruct (bout ij mode go_print_text denv callee env ie) as [t|] eqn:Et; [|discriminate]. inversion E; subst. clear E.
         rewrite js_exec_foreach, Hj. cbn [bind map length Z.of_nat andb]. replace (0 <=? 0)%Z with true by reflexivity. cbn iota. fold je2.
         assert (I2 : jinv buf sc' env' je2 old) by (split; [exact (env_rel_frame buf sc' n env' je je2 G ER F2)|exact Hb2]).
-        destruct (JP_block ie IHi buf sc' n1 env' je2 old text ji n' (ginv_mono sc' n n1 buf ltac:(alia) G) Et I2 E2) as (je' & X & Hb' & F').
+        destruct (JP_block ie IHi buf sc' n1 env' je2 old text ji n' (ginv_mono sc' n n1 buf ltac:(alia) G) Et I2 DR E2) as (je' & X & Hb' & F').
         assert (F : frame buf n je je') by (eapply frame_comp; [exact F2|eapply frame_weaken; [|exact F']; alia]).
         exists je'. split; [exact X|]. split; [exact (jinv_frame buf sc' n env' je je' old _ G I F Hb')|exact F].
       * inversion Eg; subst. clear Eg. inversion E; subst. clear E.
@@ -1025,7 +1144,7 @@ Proof.
     + (* at least one element *)
       set (l := v0 :: r0) in *.
       set (last := (Z.of_nat (length l) - 1)%Z) in *.
-      destruct (for_out (fun en => bout ij mode go_print_text en body) x (env_set env (x ++ c_lastindex) (VInt last)) 0%Z l) as [t|] eqn:Ef; [|discriminate].
+      destruct (for_out (fun en => bout ij mode go_print_text denv callee en body) x (env_set env (x ++ c_lastindex) (VInt last)) 0%Z l) as [t|] eqn:Ef; [|discriminate].
       assert (En : n' = if hasie then snd (bgen mode buf ([] :: sc) n1 ie) else n1).
       { destruct hasie; [destruct (bgen mode buf ([] :: sc) n1 ie) as [ji n2]|]; inversion Eg; reflexivity. }
       assert (Ej : exists ji, j = JSForeach vd vlist vlen vidx (cgen sc e) jb hasie ji /\ sc' = sc).
@@ -1037,7 +1156,7 @@ Proof.
       assert (F3 : frame buf n je je3) by (eapply frame_comp; [exact F2|apply frame_set_new]).
       assert (LE : loop_env env (env_set env (x ++ c_lastindex) (VInt last)) x last).
       { split; [unfold env_set; rewrite bstr_eqb_refl'; reflexivity|]. intros key _ _ K3. unfold env_set. rewrite K3. reflexivity. }
-      destruct (js_rounds body IHb buf sc n x env je last l jb n1 Hx G ER E1) with (items := l) (pre := @nil value)
+      destruct (js_rounds body IHb buf sc n x env je last l jb n1 Hx G ER DR E1) with (items := l) (pre := @nil value)
           (item := js_item_elem vlist) (stable := fun en => jvget en vlist = Some (JArr (map to_js l)))
           (envk := env_set env (x ++ c_lastindex) (VInt last)) (jek := je3) (old := old) (text := text) as (je' & X & Hb' & F').
       * replace (last + 1)%Z with (Z.of_nat (length l)) by (subst last; alia). exact Hsm.
@@ -1056,7 +1175,7 @@ Proof.
       * unfold jvget, je3, je2. cbn [jvset je_vars]. rewrite assoc_s_aset_other by exact D6. rewrite assoc_s_aset. f_equal. f_equal. subst last. alia.
       * unfold jvget, je3. cbn [jvset je_vars]. apply assoc_s_aset.
       * exists je'. split; [exact X|]. split; [eapply jinv_frame; eauto|exact F'].
-  - (* for over range() *) intros x a1 rest body IHb hasie ie IHi buf sc n env je old text env' j sc' n' G E I Eg.
+  - (* for over range() *) intros x a1 rest body IHb hasie ie IHi buf sc n env je old text env' j sc' n' G E I DR Eg.
     rewrite sout_forrange in E. rewrite sgen_forrange in Eg.
     destruct (is_ident x) eqn:Hx; [|discriminate]. destruct (bstr_eqb x n_ij) eqn:Hxij; [discriminate|]. cbn [andb negb] in E.
     destruct (cints ij env (a1 :: rest)) as [zs|] eqn:Hc; [|discriminate].
@@ -1100,9 +1219,9 @@ Proof.
     + (* no element *) assert (cnt = 0%Z) by alia. cbn [lin_list] in E.
       replace (cnt <=? 0)%Z with true by (symmetry; apply Z.leb_le; alia). rewrite andb_true_r.
       destruct hasie.
-      * destruct (bout ij mode go_print_text env ie) as [t|] eqn:Et; [|discriminate]. inversion E; subst. clear E.
+      * destruct (bout ij mode go_print_text denv callee env ie) as [t|] eqn:Et; [|discriminate]. inversion E; subst. clear E.
         assert (I3 : jinv buf sc env' je3 old) by (split; [exact (env_rel_frame buf sc n env' je je3 G ER F3)|exact Hb3]).
-        destruct (JP_block ie IHi buf sc n1 env' je3 old text ji n' (ginv_mono sc n n1 buf ltac:(alia) G) Et I3 Eji) as (je' & X & Hb' & F').
+        destruct (JP_block ie IHi buf sc n1 env' je3 old text ji n' (ginv_mono sc n n1 buf ltac:(alia) G) Et I3 DR Eji) as (je' & X & Hb' & F').
         assert (F : frame buf n je je') by (eapply frame_comp; [exact F3|eapply frame_weaken; [|exact F']; alia]).
         exists je'. split; [exact X|]. split; [exact (jinv_frame buf sc n env' je je' old _ G I F Hb')|exact F].
       * inversion E; subst. clear E. cbn [js_for]. unfold jvget. cbn [jvset je_vars]. rewrite assoc_s_aset.
@@ -1117,7 +1236,7 @@ Proof.
       rewrite Hl0 in E. rewrite <- Hl0 in E.
       replace (hasie && (cnt <=? 0)%Z) with false by (rewrite andb_comm; symmetry; apply andb_false_intro1; apply Z.leb_gt; alia).
       set (last := (Z.of_nat (length l0) - 1)%Z) in *.
-      destruct (for_out (fun en => bout ij mode go_print_text en body) x (env_set env (x ++ c_lastindex) (VInt last)) 0%Z l0) as [t|] eqn:Ef; [|discriminate].
+      destruct (for_out (fun en => bout ij mode go_print_text denv callee en body) x (env_set env (x ++ c_lastindex) (VInt last)) 0%Z l0) as [t|] eqn:Ef; [|discriminate].
       inversion E; subst t env'. clear E.
       assert (Hcl : (cnt = last + 1)%Z) by (subst last; rewrite Hlen0; alia).
       (* every element is a + j * st with 0 <= j < cnt, between a and l *)
@@ -1134,7 +1253,7 @@ Proof.
       assert (LE : loop_env env (env_set env (x ++ c_lastindex) (VInt last)) x last).
       { split; [unfold env_set; rewrite bstr_eqb_refl'; reflexivity|]. intros key _ _ K3. unfold env_set. rewrite K3. reflexivity. }
       replace (S k) with (length l0) by exact Hlen0.
-      destruct (js_rounds body IHb buf sc n x env je last l0 jb n1 Hx G ER E1) with (items := l0) (pre := @nil value)
+      destruct (js_rounds body IHb buf sc n x env je last l0 jb n1 Hx G ER DR E1) with (items := l0) (pre := @nil value)
           (item := js_item_lin vinit vstep) (stable := fun en => jvget en vinit = Some (JNum a) /\ jvget en vstep = Some (JNum st))
           (envk := env_set env (x ++ c_lastindex) (VInt last)) (jek := je4) (old := old) (text := text) as (je' & X & Hb' & F').
       * rewrite <- Hcl. exact Hscnt.
@@ -1162,7 +1281,7 @@ Proof.
       * unfold jvget, je4, je3. cbn [jvset je_vars]. rewrite assoc_s_aset_other by exact N4. rewrite assoc_s_aset. f_equal. f_equal. exact Hcl.
       * unfold jvget, je4. cbn [jvset je_vars]. apply assoc_s_aset.
       * exists je'. split; [exact X|]. split; [eapply jinv_frame; eauto|exact F'].
-  - (* css *) intros e sfx buf sc n env je old text env' j sc' n' G E I Eg. rewrite sout_css in E. rewrite sgen_css in Eg. inversion Eg; subst. clear Eg.
+  - (* css *) intros e sfx buf sc n env je old text env' j sc' n' G E I DR Eg. rewrite sout_css in E. rewrite sgen_css in Eg. inversion Eg; subst. clear Eg.
     rewrite js_exec_css. pose proof I as [ER Hb]. destruct e as [x|].
     + destruct (ceval ij env x) as [v|] eqn:Ev; [|discriminate]. destruct (scalar_string v) as [str|] eqn:Es; [|discriminate]. inversion E; subst. clear E.
       destruct (scalar_string_ok v str Es) as (_ & _ & Ht). destruct (cgen_correct sc' ij env' je ER x v Ev) as [Hj _].
@@ -1175,41 +1294,78 @@ Proof.
       eapply frame_comp; apply append_frame.
     + inversion E; subst. clear E. cbn [bind]. unfold js_append_text. rewrite Hb. eexists. split; [reflexivity|].
       split; [eapply jinv_append; eauto|apply append_frame].
-  - (* BNil *) intros buf sc n env je old text jb n' G E I Eg. rewrite bout_nil in E. rewrite bgen_nil in Eg. inversion E; subst. inversion Eg; subst.
+  - (* call *) intros name d ps IHp buf sc n env je old text env' j sc' n' G E I DR Eg. rewrite sout_call in E. rewrite sgen_call in Eg.
+    destruct (pgen mode sc n ps) as [jps n1] eqn:Ep0. inversion Eg; subst. clear Eg.
+    destruct (cdata_env ij denv env d) as [base|] eqn:Ed; [|discriminate].
+    destruct (pout ij mode go_print_text denv callee env ps base) as [cenv|] eqn:Ep; [|discriminate].
+    destruct (callee name cenv) as [t|] eqn:Ec; [|discriminate]. inversion E; subst. clear E.
+    pose proof I as [ER Hb].
+    (* the data object, whenever it is evaluated *)
+    assert (Hbase : exists m, datarel base (JObj m) /\ forall je1, frame buf n je je1 ->
+              match dgen sc' d with JDEmpty => Ok (JObj []) | JDOpt => Ok (je_data je1) | JDExpr e => js_eval je1 e end = Ok (JObj m)).
+    { destruct d as [| |e]; cbn [cdata_env dgen] in *.
+      - inversion Ed; subst. exists []. split; [apply datarel_empty|reflexivity].
+      - inversion Ed; subst. destruct (datarel_obj _ _ DR) as (m & Hm). exists m. split; [rewrite <- Hm; exact DR|].
+        intros je1 [D1 _]. rewrite D1, Hm. reflexivity.
+      - destruct (ceval ij env' e) as [[| | | | | | |lid m]|] eqn:Ev; try discriminate.
+        destruct (forallb (fun kv => is_ident (fst kv)) m) eqn:Hkeys; [|discriminate]. inversion Ed; subst.
+        exists (map (fun kv => (fst kv, to_js (snd kv))) m).
+        split; [exact (datarel_map lid m (proj2 (cgen_correct sc' ij env' je ER e _ Ev)) Hkeys)|].
+        intros je1 F1. exact (proj1 (cgen_correct sc' ij env' je1 (env_rel_frame buf sc' n env' je je1 G ER F1) e _ Ev)). }
+    destruct Hbase as (m & DRb & Hbe).
+    destruct (IHp buf sc' n env' je old base cenv m jps n' G Ep I DR Ep0 DRb) as (je1 & vs & X1 & F1 & Hb1 & Evs & DRc).
+    rewrite js_exec_call, X1. cbn [bind].
+    assert (Hdv : exists dvj, js_call_data je1 (dgen sc' d) (jp_args jps) = Ok dvj /\ datarel cenv dvj).
+    { unfold js_call_data. rewrite (Hbe je1 F1). cbn [bind]. destruct (jp_args jps) as [|p r] eqn:Ea.
+      - cbn [js_eval_params] in Evs. inversion Evs; subst. cbn [fold_left] in DRc. eexists; split; [reflexivity|exact DRc].
+      - rewrite Evs. cbn [bind js_augment]. eexists. split; [reflexivity|exact DRc]. }
+    destruct Hdv as (dvj & Edv & DRd). rewrite Edv. cbn [bind].
+    pose proof (env_rel_frame buf sc' n env' je je1 G ER F1) as ER1.
+    rewrite (Hjcall name cenv _ dvj (js_ij_arg je1) Ec DRd).
+    + cbn [bind]. unfold js_append_text. rewrite Hb1. eexists. split; [reflexivity|].
+      split; [exact (jinv_append buf sc' n env' je1 old _ G (conj ER1 Hb1))|eapply frame_comp; [exact F1|apply append_frame]].
+    + intros v Hv. unfold js_ij_arg. rewrite (er_ij _ _ _ _ ER1 v Hv). reflexivity.
+  - (* msg *) intros body IHb buf sc n env je old text env' j sc' n' G E I DR Eg. rewrite sout_msg in E. rewrite sgen_msg in Eg.
+    destruct (msg_ok body); [|discriminate]. destruct (bout ij mode go_print_text denv callee env body) as [t|] eqn:Et; [|discriminate]. inversion E; subst. clear E.
+    destruct (bgen mode buf sc n body) as [jb n1] eqn:E1. inversion Eg; subst. clear Eg.
+    destruct (IHb buf sc' n env' je old text jb n' G Et I DR E1) as (je' & X & Hb' & F).
+    exists je'. rewrite js_exec_seq. split; [exact X|]. split; [eapply jinv_frame; eauto|exact F].
+  - (* BNil *) intros buf sc n env je old text jb n' G E I DR Eg. rewrite bout_nil in E. rewrite bgen_nil in Eg. inversion E; subst. inversion Eg; subst.
     exists je. rewrite app_nil_r. split; [reflexivity|]. split; [apply I|apply frame_refl].
-  - (* BCons *) intros s IHs r IHr buf sc n env je old text jb n' G E I Eg. rewrite bout_cons in E. rewrite bgen_cons in Eg.
+  - (* BCons *) intros s IHs r IHr buf sc n env je old text jb n' G E I DR Eg. rewrite bout_cons in E. rewrite bgen_cons in Eg.
     destruct (sgen mode buf sc n s) as [j [sc1 n1]] eqn:E1. destruct (bgen mode buf sc1 n1 r) as [jr n2] eqn:E2. inversion Eg; subst. clear Eg.
-    destruct (sout ij mode go_print_text env s) as [[a env1]|] eqn:Ea; [|discriminate].
-    destruct (bout ij mode go_print_text env1 r) as [c|] eqn:Ec; [|discriminate]. inversion E; subst. clear E.
-    destruct (IHs buf sc n env je old a env1 j sc1 n1 G Ea I E1) as (je1 & X1 & I1 & F1).
+    destruct (sout ij mode go_print_text denv callee env s) as [[a env1]|] eqn:Ea; [|discriminate].
+    destruct (bout ij mode go_print_text denv callee env1 r) as [c|] eqn:Ec; [|discriminate]. inversion E; subst. clear E.
+    destruct (IHs buf sc n env je old a env1 j sc1 n1 G Ea I DR E1) as (je1 & X1 & I1 & F1).
     assert (Hbo : binder_ok s).
     { destruct s; cbn [binder_ok]; auto.
       - rewrite sout_let in Ea. destruct (bstr_eqb name n_ij); [discriminate|]. destruct (is_ident name); [reflexivity|discriminate].
       - rewrite sout_letc in Ea. destruct (bstr_eqb name n_ij); [discriminate|]. destruct (is_ident name); [reflexivity|discriminate]. }
     pose proof (ginv_after _ _ _ _ _ _ _ _ Hbo E1 G) as G1. pose proof (proj1 (sgen_mono_all mode) _ _ _ _ _ _ _ E1) as Hn1.
-    destruct (IHr buf sc1 n1 env1 je1 (old ++ a) c jr n' G1 Ec I1 E2) as (je2 & X2 & Hb2 & F2).
+    assert (DR1 : datarel denv (je_data je1)) by (rewrite (proj1 F1); exact DR).
+    destruct (IHr buf sc1 n1 env1 je1 (old ++ a) c jr n' G1 Ec I1 DR1 E2) as (je2 & X2 & Hb2 & F2).
     exists je2. rewrite jb_exec_cons, X1. cbn [bind]. split; [exact X2|]. split; [rewrite app_assoc; exact Hb2|eapply frame_trans; eauto].
-  - (* ENone *) intros buf sc n env je old text jl n' G E I Eg. rewrite eout_none in E. rewrite egen_none in Eg. inversion E; subst. inversion Eg; subst.
+  - (* ENone *) intros buf sc n env je old text jl n' G E I DR Eg. rewrite eout_none in E. rewrite egen_none in Eg. inversion E; subst. inversion Eg; subst.
     exists je. rewrite app_nil_r. split; [reflexivity|]. split; [apply I|apply frame_refl].
-  - (* EElse *) intros b IHb buf sc n env je old text jl n' G E I Eg. rewrite eout_else in E. rewrite egen_else in Eg.
+  - (* EElse *) intros b IHb buf sc n env je old text jl n' G E I DR Eg. rewrite eout_else in E. rewrite egen_else in Eg.
     destruct (bgen mode buf ([] :: sc) n b) as [jb n1] eqn:E1. inversion Eg; subst. clear Eg.
-    exact (JP_block b IHb buf sc n env je old text jb n' G E I E1).
-  - (* EElif *) intros c th IHt rest IHr buf sc n env je old text jl n' G E I Eg. rewrite eout_elif in E. rewrite egen_elif in Eg.
+    exact (JP_block b IHb buf sc n env je old text jb n' G E I DR E1).
+  - (* EElif *) intros c th IHt rest IHr buf sc n env je old text jl n' G E I DR Eg. rewrite eout_elif in E. rewrite egen_elif in Eg.
     destruct (bgen mode buf ([] :: sc) n th) as [jt n1] eqn:E1. destruct (egen mode buf sc n1 rest) as [jr n2] eqn:E2. inversion Eg; subst. clear Eg.
     destruct (ceval ij env c) as [v|] eqn:Ev; [|discriminate].
     pose proof I as [ER Hb]. destruct (cgen_correct sc ij env je ER c v Ev) as [Hj Hcv].
     rewrite jl_exec_elif, Hj. cbn [bind]. rewrite truthy_js by exact Hcv.
     pose proof (proj1 (proj2 (sgen_mono_all mode)) _ _ _ _ _ _ E1) as Hn1.
     destruct (truthy v).
-    + exact (JP_block th IHt buf sc n env je old text jt n1 G E I E1).
-    + destruct (IHr buf sc n1 env je old text jr n' (ginv_mono _ _ _ _ Hn1 G) E I E2) as (je' & X & Hb' & F).
+    + exact (JP_block th IHt buf sc n env je old text jt n1 G E I DR E1).
+    + destruct (IHr buf sc n1 env je old text jr n' (ginv_mono _ _ _ _ Hn1 G) E I DR E2) as (je' & X & Hb' & F).
       exists je'. split; [exact X|]. split; [exact Hb'|]. eapply frame_trans; [exact Hn1|apply frame_refl|exact F].
-  - (* KNone *) intros buf sc n env je old text sv jk n' G Hp E I Eg. rewrite kout_none in E. rewrite kgen_none in Eg. inversion E; subst. inversion Eg; subst.
+  - (* KNone *) intros buf sc n env je old text sv jk n' G Hp E I DR Eg. rewrite kout_none in E. rewrite kgen_none in Eg. inversion E; subst. inversion Eg; subst.
     exists je. rewrite app_nil_r. split; [reflexivity|]. split; [apply I|apply frame_refl].
-  - (* KDefault *) intros b IHb buf sc n env je old text sv jk n' G Hp E I Eg. rewrite kout_default in E. rewrite kgen_default in Eg.
+  - (* KDefault *) intros b IHb buf sc n env je old text sv jk n' G Hp E I DR Eg. rewrite kout_default in E. rewrite kgen_default in Eg.
     destruct (bgen mode buf ([] :: sc) n b) as [jb n1] eqn:E1. inversion Eg; subst. clear Eg.
-    exact (JP_block b IHb buf sc n env je old text jb n' G E I E1).
-  - (* KCase *) intros v vs b IHb rest IHr buf sc n env je old text sv jk n' G Hp E I Eg. rewrite kout_case in E. rewrite kgen_case in Eg.
+    exact (JP_block b IHb buf sc n env je old text jb n' G E I DR E1).
+  - (* KCase *) intros v vs b IHb rest IHr buf sc n env je old text sv jk n' G Hp E I DR Eg. rewrite kout_case in E. rewrite kgen_case in Eg.
     destruct (bgen mode buf ([] :: sc) n b) as [jb n1] eqn:E1. destruct (kgen mode buf sc n1 rest) as [jr n2] eqn:E2. inversion Eg; subst. clear Eg.
     destruct (khit ij env sv (v :: vs)) as [h|] eqn:Eh; [|discriminate].
     pose proof I as [ER Hb]. rewrite jk_exec_case.
@@ -1217,8 +1373,58 @@ Proof.
     rewrite (khit_js sc env je sv (v :: vs) ER Hp h Eh). cbn [bind].
     pose proof (proj1 (proj2 (sgen_mono_all mode)) _ _ _ _ _ _ E1) as Hn1.
     destruct h.
-    + exact (JP_block b IHb buf sc n env je old text jb n1 G E I E1).
-    + destruct (IHr buf sc n1 env je old text sv jr n' (ginv_mono _ _ _ _ Hn1 G) Hp E I E2) as (je' & X & Hb' & F).
+    + exact (JP_block b IHb buf sc n env je old text jb n1 G E I DR E1).
+    + destruct (IHr buf sc n1 env je old text sv jr n' (ginv_mono _ _ _ _ Hn1 G) Hp E I DR E2) as (je' & X & Hb' & F).
       exists je'. split; [exact X|]. split; [exact Hb'|]. eapply frame_trans; [exact Hn1|apply frame_refl|exact F].
+  - (* PNil *) intros buf sc n env je old base cenv m jps n' G E I DR Eg DRb. rewrite pout_nil in E. rewrite pgen_nil in Eg. inversion E; subst. inversion Eg; subst.
+    exists je, []. split; [reflexivity|]. split; [apply frame_refl|]. split; [apply I|]. split; [reflexivity|exact DRb].
+  - (* PVal *) intros k e r IHr buf sc n env je old base cenv m jps n' G E I DR Eg DRb.
+    rewrite pout_val in E. rewrite pgen_val in Eg. destruct (is_ident k) eqn:Hk; [|discriminate].
+    destruct (ceval ij env e) as [v|] eqn:Ev; [|discriminate].
+    destruct (pgen mode sc n r) as [jr n1] eqn:E1. inversion Eg; subst. clear Eg.
+    pose proof I as [ER Hb]. destruct (cgen_correct sc ij env je ER e v Ev) as [_ Hcv].
+    destruct (IHr buf sc n env je old (env_set base k v) cenv (aset m k (to_js v)) jr n' G E I DR E1 (datarel_set base m k v DRb Hcv Hk))
+      as (je' & vs & X & F & Hb' & Evs & Dc).
+    exists je', ((k, to_js v) :: vs). split; [exact X|]. split; [exact F|]. split; [exact Hb'|]. split; [|exact Dc].
+    cbn [jp_args js_eval_params]. rewrite (proj1 (cgen_correct sc ij env je' (env_rel_frame buf sc n env je je' G ER F) e v Ev)). cbn [bind].
+    rewrite Evs. reflexivity.
+  - (* PCont *) intros k body IHb r IHr buf sc n env je old base cenv m jps n' G E I DR Eg DRb.
+    rewrite pout_cont in E. rewrite pgen_cont in Eg. destruct (is_ident k) eqn:Hk; [|discriminate].
+    destruct (bout ij mode go_print_text denv callee env body) as [t|] eqn:Et; [|discriminate].
+    set (g := jsc_name t_param (n + 1)) in *.
+    destruct (bgen mode g ([] :: sc) (n + 1) body) as [jb n1] eqn:E1. destruct (pgen mode sc n1 r) as [jr n2] eqn:E2. inversion Eg; subst. clear Eg.
+    destruct I as [ER Hb]. rewrite jp_exec_cont.
+    set (je0 := jvset je g (JStr [])).
+    assert (Hbg : bstr_eqb buf g = false) by (apply bounded_fresh; apply G).
+    assert (F0 : frame buf n je je0).
+    { split; [reflexivity|]. intros g0 H0 _. cbn [je_vars je0 jvset]. apply assoc_s_aset_other. apply bounded_fresh. exact H0. }
+    assert (G' : ginv sc (n + 1) g).
+    { destruct G as [G0 G1 G2 G3 G4 G5]. constructor.
+      - exact G0.
+      - intros key Hkey. eapply bounded_mono; [|apply G1; exact Hkey]. lia.
+      - apply bounded_new.
+      - intros key Hkey. apply bounded_fresh. apply G1; exact Hkey.
+      - apply bounded_fresh. apply opt_ij_bounded.
+      - intro x. destruct (G5 x) as (A & B & _ & _). repeat split; try (eapply bounded_mono; [|eassumption]; lia); apply bounded_fresh; assumption. }
+    assert (I0 : jinv g sc env je0 []).
+    { split; [exact (env_rel_frame buf sc n env je je0 G ER F0)|]. exact (assoc_s_aset g (JStr []) (je_vars je)). }
+    destruct (JP_block body IHb g sc (n + 1) env je0 [] t jb n1 G' Et I0 DR E1) as (je1 & X1 & Hg1 & [D1 F1]).
+    rewrite X1. cbn [bind]. cbn [app] in Hg1.
+    assert (F : frame buf n je je1).
+    { split; [rewrite D1; reflexivity|]. intros g0 H0 Hb0. rewrite F1.
+      - cbn [je_vars je0 jvset]. apply assoc_s_aset_other. apply bounded_fresh. exact H0.
+      - eapply bounded_mono; [|exact H0]. lia.
+      - apply bounded_fresh. exact H0. }
+    assert (Hb1 : assoc_s buf (je_vars je1) = Some (JStr old)).
+    { rewrite F1; [|eapply bounded_mono; [|apply (gi_buf _ _ _ G)]; lia|exact Hbg]. cbn [je_vars je0 jvset]. rewrite assoc_s_aset_other by exact Hbg. exact Hb. }
+    pose proof (proj1 (proj2 (sgen_mono_all mode)) _ _ _ _ _ _ E1) as Hn1.
+    assert (DR1 : datarel denv (je_data je1)) by (rewrite D1; exact DR).
+    destruct (IHr buf sc n1 env je1 old (env_set base k (VStr t)) cenv (aset m k (JStr t)) jr n' (ginv_mono sc n n1 buf ltac:(lia) G) E
+                (conj (env_rel_frame buf sc n env je je1 G ER F) Hb1) DR1 E2 (datarel_set base m k (VStr t) DRb eq_refl Hk))
+      as (je' & vs & X2 & F2 & Hb2 & Evs & Dc).
+    exists je', ((k, JStr t) :: vs). split; [exact X2|]. split; [eapply frame_trans; [|exact F|exact F2]; lia|]. split; [exact Hb2|]. split; [|exact Dc].
+    cbn [jp_args js_eval_params js_eval].
+    rewrite (proj2 F2 g); [|eapply bounded_mono; [|apply bounded_new]; exact Hn1|rewrite bstr_eqb_sym; exact Hbg].
+    rewrite Hg1. cbn [bind]. rewrite Evs. reflexivity.
 Qed.
 End JsStmts.
